@@ -621,6 +621,19 @@ pub fn gen_pred(rng: &mut Rng, cols: &[ColDef], kmax: i64, depth: u32) -> Pred {
     }
     let c = *rng.pick(&scalar);
     let name = c.name.clone();
+    // two-sided range on one column written as two comparisons, either bound first, every
+    // strictness combination (scalar indices fold these into one range query)
+    if matches!(c.ty, Ty::I64 | Ty::I32 | Ty::F64 | Ty::Str) && rng.chance(0.12) {
+        let (lo, hi) = if c.name == "k" {
+            let a = rng.range(0, kmax.max(1));
+            (Lit::I(a), Lit::I(a + rng.range(0, 12)))
+        } else {
+            (gen_lit(rng, c), gen_lit(rng, c))
+        };
+        let upper = Pred::Cmp(name.clone(), if rng.chance(0.5) { Cmp::Lt } else { Cmp::Le }, hi);
+        let lower = Pred::Cmp(name, if rng.chance(0.5) { Cmp::Gt } else { Cmp::Ge }, lo);
+        return if rng.chance(0.5) { Pred::And(Box::new(upper), Box::new(lower)) } else { Pred::And(Box::new(lower), Box::new(upper)) };
+    }
     if c.name == "k" {
         return match rng.below(5) {
             0 => Pred::Mod(name, rng.range(2, 5), rng.range(0, 1)),
